@@ -8,11 +8,22 @@ from checks import c48, c49
 META = {
     "engine": "mtest", "level": "fault_enumeration", "design_ref": "DESIGN.md §4.6 C50",
     "technique": "scripted step refusals (behaviour refusing dt > dtmax, refusing chosen integration calls before/after the integration, or too few Newton iterations allowed) enumerated over periods, iterations, nesting depth, prediction policies and acceleration algorithms; run A (sub-stepping, every accepted period written) against run B (time grid = the steps A accepted, no refusal): rows compared bit for bit when the time arithmetic is exact, within C49's tolerance otherwise; accepted-attempt iteration counts and period counters compared",
-    "text": "Behaviours VfNorton, VfImplicitNorton and VfPlasticity (reference .mfront files plus a control block) refuse an integration when the time step exceeds a material property or when the index of the integration call is listed in an environment variable, either before the integration or after it (state already computed). A dry run gives the number of iterations of each period, from which the call index of (period p, iteration i) is computed; run A is then made with refusals at that position, optionally repeated on the first attempts of the halved step (nesting), or with a small @MaximumNumberOfIterations (refusal by non convergence). With @OutputFrequency 'EveryPeriod' and 17 digits A's result file lists every accepted sub-step; run B uses exactly these times as @Times with no refusal. The property demands the same states: on grids whose sub-step times are exact binary numbers (same t, dt in both runs) every column of every row must be bit-identical, and the iteration count of every accepted attempt and the period counter must coincide; on other grids the rows must agree within C49's tolerance. Enumerated: 4 prediction policies x 6 acceleration settings x 3 behaviours x failure position (period 1..5, iteration 1..4) x nesting 1..3 x refusal mode.",
-    "note": "Trusted: the control block really refuses where planned (the evidence counts planned positions reached). Runs where A's own time loop overshoots the requested time (finding C48:GenericSolver:sub-stepping-overshoots-requested-time) are counted and not judged here. Lagrange multipliers are observed through the imposed-stress components.",
+    "text": "Behaviours VfNorton, VfImplicitNorton and VfPlasticity (reference .mfront files plus a control block) refuse an integration when the time step exceeds a material property or when the index of the integration call is listed in an environment variable, either before the integration or after it (state already computed). A dry run gives the number of iterations of each period, from which the call index of (period p, iteration i) is computed; run A is then made with refusals at that position, optionally repeated on the first attempts of the halved step (nesting), or with a small @MaximumNumberOfIterations (refusal by non convergence). With @OutputFrequency 'EveryPeriod' and 17 digits A's result file lists every accepted sub-step; run B uses exactly these times as @Times with no refusal. The property demands the same states: on grids whose sub-step times are exact binary numbers (same t, dt in both runs) every column of every row must be bit-identical, and the iteration count of every accepted attempt and the period counter must coincide; on other grids the rows must agree within C49's tolerance. Enumerated: 4 prediction policies x 6 acceleration settings x 3 behaviours x failure position (period 1..5, iteration 1..4) x nesting 1..3 x refusal mode. A second family runs a rate-form (hypoelastic, explicit viscous flow) control law whose result depends on every begin-of-step quantity handed to the behaviour (stress, strain, internal variables, temperature, dissipated energy), and the other control laws, (a) plain, (b) through the behaviour wrappers an input file can select with the generic interface (mtest/src/*BehaviourWrapper.cxx: LogarithmicStrain1D in mtest and in ptest, SmallStrainTridimensionalBehaviourWrapper in the 1D/2D hypotheses) and (c) in PipeTest without wrapper, with refusals placed at period >= 2 so that the rejected attempt starts from non-zero strain and stress; result rows (and, for ptest, every Gauss point profile line) must be bit-identical between the run with rejected attempts and the run made of the accepted steps.",
+    "note": "Trusted: the control block really refuses where planned (the evidence counts planned positions reached). Runs where A's own time loop overshoots the requested time (finding C48:GenericSolver:sub-stepping-overshoots-requested-time) are counted and not judged here. Lagrange multipliers are observed through the imposed-stress components. AsterLogarithmicStrainBehaviourWrapper needs the aster interface (not built) and is not exercised. Begin-of-step quantities are not printed by mtest: they are observed through the rate-form law, which folds each of them into its state.",
 }
 
-NEEDED = ["VfNorton", "VfImplicitNorton", "VfPlasticity"]
+NEEDED = ["VfNorton", "VfImplicitNorton", "VfPlasticity", "VfHypo"]
+# second family of cases: behaviour wrappers of mtest/src/*BehaviourWrapper.cxx reachable from an input file with the
+# generic interface (SingleStructureScheme::setBehaviour: LogarithmicStrain1D, SmallStrainTridimensionalBehaviourWrapper;
+# AsterLogarithmicStrainBehaviourWrapper needs the aster interface, which is not built) and the rate-form law VfHypo,
+# whose result depends on every begin-of-step quantity (stress, strain, internal variables, temperature, energies)
+VARIANTS = [("mtest", None), ("mtest", "LogarithmicStrain1D"), ("ptest", "LogarithmicStrain1D"),
+            ("mtest", "SmallStrainTridimensionalBehaviourWrapper"), ("ptest", None)]
+TRIDIM_HYPS = ["AxisymmetricalGeneralisedPlaneStrain", "Axisymmetrical", "PlaneStrain", "GeneralisedPlaneStrain"]
+
+
+def vname(case):
+    return "%s:%s" % (case.get("scheme", "mtest"), case.get("wrapper") or "no-wrapper")
 ACCS = ["none", "UseCastem", "Secant", "IronsTuck", "UAnderson", "Steffensen"]
 HYPS = ["Tridimensional", "Axisymmetrical", "GeneralisedPlaneStrain", "AxisymmetricalGeneralisedPlaneStrain"]
 
@@ -58,19 +69,122 @@ def gen_case(seed, i, libs):
     return case
 
 
+def gen_wcase(seed, j, libs, base):
+    """wrapper / rate-form family; `base` offsets the directory and replay index"""
+    g = vfcore.rng(seed, "c50", "wrap", j)
+    scheme, wrapper = VARIANTS[j % len(VARIANTS)]
+    others = ["VfNorton", "VfImplicitNorton", "VfPlasticity"]
+    name = "VfHypo" if (wrapper is None or (j // len(VARIANTS)) % 2 == 0) else others[(j // (2 * len(VARIANTS))) % 3]
+    acc = ACCS[(j // len(VARIANTS)) % len(ACCS)]
+    pred = c49.PRED[(j // len(VARIANTS) + j // (len(VARIANTS) * len(ACCS))) % 4]
+    law = M.LAW[name]
+    mp, info, eamp, samp = M.rand_material(g, law)
+    if wrapper == "LogarithmicStrain1D" or scheme == "ptest":
+        hyp = "AxisymmetricalGeneralisedPlaneStrain"
+    elif wrapper:
+        hyp = g.choice(TRIDIM_HYPS)
+    else:
+        hyp = g.choice(HYPS)
+    plan = g.choice(["dtmax", "dtmax", "dtmax", "at", "at", "at", "at", "at", "at", "itermax"])
+    if law == "hypo" and plan == "itermax":
+        plan = "at"          # this law converges in two iterations: a small @MaximumNumberOfIterations rejects nothing
+    nsteps = g.randrange(2, 6)
+    unit = 2.0 ** g.randrange(-4, 7)
+    ts = [0.0]
+    for _ in range(nsteps):
+        ts.append(ts[-1] + unit * 64 * g.randrange(1, 5))
+    if law == "hypo":
+        mp["ReferenceCreepRate"] = 0.3 * eamp / ts[-1] * g.uniform(0.1, 1.0)
+    cons = M.rand_control(g, hyp, eamp, samp, ts[0], ts[-1], pfree=0.3, pstress=0.4)
+    eeps = 10.0 ** g.uniform(-13, -11)
+    seps = 10.0 ** g.uniform(-3, -1) * (info["E"] / 1.5e11)
+    case = {"i": base + j, "behaviour": name, "law": law, "hyp": hyp, "mp": mp, "info": info, "times": ts, "cons": cons, "eeps": eeps, "seps": seps,
+            "lib": libs[name], "pred": pred, "acc": acc, "plan": plan, "exact": True, "ktype": g.choice(c49.KTYPE),
+            "mode": g.randrange(2), "itermax": None, "dtmax": 0.0, "fail_at": None, "scheme": scheme, "wrapper": wrapper,
+            "temperature": M.lpi([(ts[0], 293.15), (ts[-1], 293.15 + g.uniform(0, 100))])}
+    if scheme == "ptest":
+        Ri = 10.0 ** g.uniform(-3, 0)
+        th = 10.0 ** g.uniform(-1, 0)
+        etype = g.choice(["Linear", "Quadratic"])
+        nel = g.randrange(1, 4)
+        # pressures giving hoop strains of the order of eamp
+        P = info["E"] * eamp * th / (1 + th) * g.uniform(0.5, 2.0)
+        case["pipe"] = {"Ri": Ri, "Re": Ri * (1 + th), "etype": etype, "nel": nel, "gauss": nel * (2 if etype == "Linear" else 3),
+                        "axial": g.choice(["None", "EndCapEffect"]),
+                        # PipeTest::checkBehaviourConsistency: the wrapped law is a finite-strain (ETO_PK1) one, the plain law a small-strain one
+                        "hpp": wrapper is None,
+                        "Pi": M.lpi([(ts[0], 0.0), (ts[-1], P)]) if g.random() < 0.7 else M.lpi([(ts[0], 0.3 * P), (ts[-1] / 2, P), (ts[-1], 0.5 * P)]),
+                        "Pe": P * g.uniform(0, 0.3), "reps": max(1e-3, 1e-9 * P * (1 + th) / th)}
+    steps = [b - a for a, b in zip(ts, ts[1:])]
+    if plan == "dtmax":
+        case["dtmax"] = max(steps) / g.choice([1.5, 3.0, 6.0])
+    elif plan == "at":
+        case["target"] = (g.randrange(2, min(5, nsteps) + 1), g.randrange(1, 4), g.randrange(1, 4))   # period >= 2: non-zero state when refused
+    else:
+        case["itermax"] = g.randrange(2, 5)
+    return case
+
+
+def ptest_text(case, times, maxsub, dtmax, itermax):
+    pp = case["pipe"]
+    mp = dict(case["mp"])
+    mp["MaximalAcceptedTimeStep"] = dtmax
+    L = ["@InnerRadius %s;" % M.fl(pp["Ri"]), "@OuterRadius %s;" % M.fl(pp["Re"]), "@NumberOfElements %d;" % pp["nel"],
+         "@ElementType '%s';" % pp["etype"], "@AxialLoading '%s';" % pp["axial"], "@PerformSmallStrainAnalysis %s;" % ("true" if pp["hpp"] else "false"),
+         "@Behaviour<generic%s> '%s' '%s';" % ("," + case["wrapper"] if case["wrapper"] else "", case["lib"], M.SPECS[case["behaviour"]][1])]
+    for k, v in mp.items():
+        L.append("@MaterialProperty<constant> '%s' %s;" % (k, M.fl(v)))
+    L.append("@ExternalStateVariable<evolution> 'Temperature' %s;" % case["temperature"].text)
+    L.append("@InnerPressureEvolution %s;" % pp["Pi"].text)
+    L.append("@OuterPressureEvolution %s;" % M.fl(pp["Pe"]))
+    L.append("@ResidualEpsilon %s;" % M.fl(pp["reps"]))
+    L += [l for l in c49.config_lines((case["acc"], case["pred"], case["ktype"], "ToNearest", maxsub))]
+    L += ["@OutputFrequency 'EveryPeriod';", "@OutputFilePrecision 17;", "@MaximumNumberOfSubSteps %d;" % maxsub]
+    if itermax:
+        L.append("@MaximumNumberOfIterations %d;" % itermax)
+    L.append("@Profile 'prof.res' {'SRR','STT','SZZ','ERR','ETT','EZZ'};")
+    L.append("@Times {%s};" % ",".join(M.fl(t) for t in times))
+    return "\n".join(L) + "\n"
+
+
+class PRes:
+    """ptest result file (time, radii, displacements, axial growth...) + the Gauss point profiles of every written time"""
+
+    def __init__(self, d):
+        self.names, self.rows, self.profile, self.ok = [], [], [], False
+        try:
+            for l in (d / "a.res").read_text().splitlines():
+                if l.strip() and not l.startswith("#"):
+                    self.rows.append([float(x) for x in l.split()])
+            for l in (d / "prof.res").read_text().splitlines():
+                if l.startswith("#Time"):
+                    self.profile.append([float(l.split()[1])])
+                elif l.strip() and not l.startswith("#"):
+                    self.profile.append([float(x) for x in l.split()])
+        except (OSError, ValueError, IndexError):
+            return
+        n = len(self.rows[0]) if self.rows else 0
+        self.names = (["time", "InnerRadius", "OuterRadius", "InnerDisplacement", "OuterDisplacement", "AxialGrowth"] + ["col%d" % k for k in range(7, n + 1)])[:n]
+        self.ok = bool(self.rows) and all(len(r) == n for r in self.rows) and bool(self.profile)
+
+
 def text(case, times, maxsub, dtmax, itermax):
+    if case.get("scheme") == "ptest":
+        return ptest_text(case, times, maxsub, dtmax, itermax)
     mp = dict(case["mp"])
     mp["MaximalAcceptedTimeStep"] = dtmax
     extra = c49.config_lines((case["acc"], case["pred"], case["ktype"], "ToNearest", maxsub)) + ["@OutputFrequency 'EveryPeriod';"]
     return M.mtest_text(case["lib"], M.SPECS[case["behaviour"]][1], case["hyp"], mp, times, case["cons"], case["eeps"], case["seps"],
-                        extra=extra, maxsub=maxsub, itermax=itermax)
+                        extra=extra, maxsub=maxsub, itermax=itermax, wrapper=case.get("wrapper"), temperature=case.get("temperature"))
 
 
 def one(ctx, case, tag, txt, envx):
     d = ctx.work / ("k%d" % case["i"]) / tag
     d.mkdir(parents=True, exist_ok=True)
-    (d / "a.mtest").write_text(txt)
-    r = M.run_mtest(d, "a.mtest", args=["--verbose=level1"], timeout=180, extra_env=envx)
+    ptest = case.get("scheme") == "ptest"
+    fn = "a.ptest" if ptest else "a.mtest"
+    (d / fn).write_text(txt)
+    r = M.run_mtest(d, fn, args=["--verbose=level1"] + (["--scheme=ptest"] if ptest else []), timeout=180, extra_env=envx)
     crash = ctx.classify_crash(r, recognised_terminate=True)
     o = {"status": None, "res": None, "att": None, "stats": None, "text": txt, "env": envx}
     if crash == "hang":
@@ -82,7 +196,7 @@ def one(ctx, case, tag, txt, envx):
         o["status"] = "failed:" + c48.failure_reason(r.out)
     else:
         o["att"], o["stats"] = M.parse_log(r.out)
-        res = M.Res(d / "a.res")
+        res = PRes(d) if ptest else M.Res(d / "a.res")
         o["status"] = "ok" if res.ok else "unreadable"
         o["res"] = res
     return o
@@ -107,6 +221,10 @@ def run_case(ctx, case, doctor=None):
         p = min(p, len(iters))
         it = min(it, iters[p - 1])
         idx = sum(iters[:p - 1]) + it
+        if case.get("scheme") == "ptest":
+            # one integration call per Gauss point and iteration: the refusal is placed at a chosen Gauss point
+            G = case["pipe"]["gauss"]
+            idx = (sum(iters[:p - 1]) + it - 1) * G + 1 + (case["i"] * 7) % G
         # nesting: the first attempt(s) of the halved step are refused too (at their first or second call)
         fa = [idx]
         for _ in range(depth - 1):
@@ -158,6 +276,10 @@ def run_case(ctx, case, doctor=None):
     b = one(ctx, case, "B", text(case, tA, 1, 0.0, case["itermax"]), {})
     out["runs"] += 1
     key_cfg = "%s:%s:%s:%s" % (case["behaviour"], case["plan"] + ("-mode%d" % case["mode"] if case["plan"] == "at" else ""), case["pred"], case["acc"])
+    if "scheme" in case:
+        key_cfg += ":" + vname(case)
+    # refused attempts that started from a non-zero state (after the first accepted step)
+    out["nonzero_state_refusals"] = sum(1 for x in att if not x["ok"] and float(x["t0"]) > case["times"][0])
     if b["status"] != "ok":
         if b["status"].startswith("crash"):
             out["viol"].append(("mtest-crash:%s" % b["status"][6:], "mtest died in run B\n%s" % b.get("tail", "")))
@@ -195,6 +317,19 @@ def run_case(ctx, case, doctor=None):
                     break
             if out["bitwise"] is False:
                 break
+        if out["bitwise"] and case.get("scheme") == "ptest":
+            pa, pb = resA.profile, resB.profile
+            if len(pa) != len(pb):
+                out["bitwise"] = False
+                out["viol"].append(("profile-differs:%s" % key_cfg, "Gauss point profiles: %d lines in A, %d in B" % (len(pa), len(pb))))
+            else:
+                for la, lb in zip(pa, pb):
+                    if len(la) != len(lb) or not all(same_float(x, y) for x, y in zip(la, lb)):
+                        out["bitwise"] = False
+                        out["viol"].append(("state-differs-bitwise:%s" % key_cfg,
+                                            "same t and dt in both runs, yet a Gauss point line of the profile is %s after the rejected step(s) and %s in "
+                                            "the direct run (refused attempts %d, %s)" % (la, lb, out["nfail"], case["pipe"])))
+                        break
         if itA != itB:
             out["viol"].append(("iterations-differ:%s" % key_cfg,
                                 "iterations of the accepted attempts: A %s, B %s (same t, dt and starting state expected)" % (itA, itB)))
@@ -203,7 +338,12 @@ def run_case(ctx, case, doctor=None):
         pass
     ref = _R()
     ref.names, ref.rows = names, resB.rows
-    ratio = c49.stiffness_ratio(case, ref)
+    if case.get("scheme") == "ptest":
+        ratio = math.inf            # structure run: judged bit for bit only (its grids are always exact binary numbers)
+    elif case["law"] == "hypo":
+        ratio = 3.0                 # elastic tangent (the flow is explicit)
+    else:
+        ratio = c49.stiffness_ratio(case, ref)
     if ratio <= 1e4:
         E = case["info"]["E"]
         te = case["eeps"] + ratio * case["seps"] / E
@@ -239,7 +379,12 @@ def run(ctx, doctor=None):
     ctx.cov["rule"] = ("case = pair (run A with scripted refusals, run B on the accepted steps); enumerated axes: behaviour(3) x prediction policy(4) x "
                        "acceleration(6) x plan (dtmax | refusal at (period, iteration, nesting) before/after integration | non convergence by itermax); "
                        "distinct = judged pairs; non-trivial = at least one step was rejected in A")
-    cases = [gen_case(ctx.seed, i, libs) for i in range(n)]
+    nw = ctx.n(75, 1500)
+    ctx.cov["rule"] += ("; second family (%d pairs): rate-form law VfHypo (reads every begin-of-step quantity) and the 3 other control behaviours x variant "
+                        "(%s) x prediction x acceleration x plan, refusals placed at period >= 2 so that the rejected attempt starts from a non-zero state" %
+                        (nw, ", ".join("%s/%s" % v for v in VARIANTS)))
+    cases = [gen_case(ctx.seed, i, libs) for i in range(n)] + [gen_wcase(ctx.seed, j, libs, 100000) for j in range(nw)]
+    n += nw
     outs = vfcore.pmap(lambda c: run_case(ctx, c, doctor), cases, workers=min(vfcore.NCPU, 12))
     judged = 0
     pos = set()
@@ -258,6 +403,10 @@ def run(ctx, doctor=None):
         ctx.count("judged:acc=%s" % case["acc"])
         ctx.count("judged:%s" % case["behaviour"])
         ctx.count("judged:exact-arithmetic" if o["bitwise"] is not None else "judged:tolerance-only")
+        if "scheme" in case:
+            ctx.count("judged:variant=%s" % vname(case))
+            ctx.count("judged:variant=%s:%s" % (vname(case), case["behaviour"]))
+            ctx.count("refusals_from_nonzero_state:%s" % vname(case), o.get("nonzero_state_refusals", 0))
         ctx.count("refused_attempts", o["nfail"])
         ctx.count("judged:halving-depth=%d" % o["maxdepth"])
         if o["bitwise"]:
@@ -269,7 +418,7 @@ def run(ctx, doctor=None):
             if o["reached"]:
                 pos.add(case["target_eff"][:2])
                 ctx.count("judged:mode=%d" % case["mode"])
-        ctx.sample({"i": case["i"], "behaviour": case["behaviour"], "hyp": case["hyp"], "plan": case["plan"], "pred": case["pred"], "acc": case["acc"],
+        ctx.sample({"i": case["i"], "variant": vname(case), "behaviour": case["behaviour"], "hyp": case["hyp"], "plan": case["plan"], "pred": case["pred"], "acc": case["acc"],
                     "times": case["times"], "fail_at": case["fail_at"], "dtmax": case["dtmax"], "itermax": case["itermax"],
                     "refused": o["nfail"], "depth": o["maxdepth"], "bitwise": o["bitwise"]})
     ctx.cov["failure_positions_reached(period,iteration)"] = sorted(pos)
@@ -284,6 +433,12 @@ def run(ctx, doctor=None):
     for pl in ("dtmax", "at", "itermax"):
         ctx.require(cnt.get("judged:plan=%s" % pl, 0) > 0, "no judged pair with plan %s" % pl)
     ctx.require(cnt.get("judged:exact-arithmetic", 0) >= judged // 3, "too few pairs with exact time arithmetic")
+    for v in VARIANTS:
+        vn = "%s:%s" % (v[0], v[1] or "no-wrapper")
+        ctx.require(cnt.get("judged:variant=%s" % vn, 0) >= ctx.n(4, 60), "only %d judged pairs for variant %s" % (cnt.get("judged:variant=%s" % vn, 0), vn))
+        ctx.require(cnt.get("judged:variant=%s:VfHypo" % vn, 0) >= ctx.n(2, 30), "too few judged pairs of the rate-form law for variant %s" % vn)
+        ctx.require(cnt.get("refusals_from_nonzero_state:%s" % vn, 0) >= ctx.n(4, 60),
+                    "variant %s: only %d refused attempts started from a non-zero state" % (vn, cnt.get("refusals_from_nonzero_state:%s" % vn, 0)))
     ctx.require(len(pos) >= ctx.n(5, 14), "only %d distinct (period, iteration) failure positions reached" % len(pos))
     nto = cnt.get("pairs:A-timeout", 0) + cnt.get("pairs:B-timeout", 0)
     if nto > max(2, n // 50):
